@@ -5,6 +5,7 @@ package conf
 // C14 correspondence harness (injected into package conf by overlay).
 //
 // ops (names are hex, "-" = empty)
+//   reset    delimits a case; every other op is self-contained
 //   validate <n> {<name> <compiles>}…
 //        the key set is put into Conf.OptionalPaths (nil values) of a default configuration and the real
 //        Conf.Validate is run.  <compiles> is an oracle column: regexp.Compile(name[1:]) == nil.
@@ -137,6 +138,8 @@ func verifC14Once(paths map[string]*Path, req string) string {
 func verifC14Exec(op string) string {
 	f := strings.Fields(op)
 	switch f[0] {
+	case "reset": // only delimits a case (every op is self-contained)
+		return "ok"
 	case "validate":
 		n := verifutil.Atoi(f[1])
 		names := make([]string, n)
@@ -308,7 +311,7 @@ func verifC14Req(r *verifutil.Rand, names []string) string {
 
 func verifC14Gen(r *verifutil.Rand, i int, thorough bool) []string {
 	names := verifC14Keys(r)
-	ops := []string{verifC14ValidateOp(names)}
+	ops := []string{"reset", verifC14ValidateOp(names)}
 	c, err := verifC14Build(names)
 	if err != nil {
 		return ops
@@ -321,6 +324,9 @@ func verifC14Gen(r *verifutil.Rand, i int, thorough bool) []string {
 
 func verifC14Class(op, impl string) string {
 	f := strings.Fields(impl)
+	if op == "reset" {
+		return "reset"
+	}
 	if strings.HasPrefix(op, "validate") {
 		if strings.HasPrefix(impl, "ok") {
 			return "validate/ok"
